@@ -128,6 +128,9 @@ def run(ctx):
         rule_g1(ctx, F)
         rule_w1(ctx, F)
         rule_p1(ctx, F)
+        # the included-range difference that invalidates reuse of newly excluded / included text (shared with C04)
+        import C04
+        C04.rule_p1(ctx, F)
     rust_half(ctx)
     return ctx.finish(
         "Gate and wiring rules over lexer.c/tree.c/parser.c (+ the Rust setter): a range list is installed only after every element passed both ordering tests; "
